@@ -498,6 +498,14 @@ func (cw *c01World) judgeHTTP(c *c01Conn, oi int, inv uint64, method, host, path
 			return
 		}
 	}
+	if r.bodyCut {
+		// the request's deadline cut the body short (lossy network): what arrived must be a prefix
+		x.Probe("http-body-cut-by-timeout")
+		if method != "HEAD" && !bytes.HasPrefix(wantBody, r.body) {
+			x.Violate("masq-body", "c%d o%d: %s %s%s partial body %q is not a prefix of what the handler writes", c.idx, oi, method, host, path, r.body[:min(len(r.body), 60)])
+		}
+		return
+	}
 	if method != "HEAD" && !bytes.Equal(r.body, wantBody) {
 		x.Violate("masq-body", "c%d o%d: %s %s%s body %q, handler writes %q", c.idx, oi, method, host, path, r.body[:min(len(r.body), 60)], wantBody[:min(len(wantBody), 60)])
 		return
